@@ -563,6 +563,7 @@ public:
     for (unsigned int iteration = 1;; ++iteration) {
       // keep track of how many times the cycle is visited by the fixpoint
       cycle.increment_fixpo_visits();
+      CRAB_VERIF_TICK();
 
       // Increasing iteration sequence with widening
       m_iterator->set_pre(head, pre);
@@ -600,6 +601,7 @@ public:
 
     for (unsigned int iteration = 1;; ++iteration) {
       // Decreasing iteration sequence with narrowing
+      CRAB_VERIF_TICK();
       compute_post(head, pre);
       for (typename wto_cycle_t::iterator it = cycle.begin(); it != cycle.end();
            ++it) {
